@@ -708,6 +708,17 @@ func (j *judge) judgeSession(seqPhaseStart int64) {
 	for k, n := range s.counts {
 		j.m.Count(k, n)
 	}
+	if s.counts["requests_untagged"] > 0 {
+		// a request made on behalf of an operation whose context does not descend from the
+		// caller's context cannot be cancelled by the caller
+		var ex []event
+		for _, e := range s.all {
+			if e.Untagged {
+				ex = append(ex, e)
+			}
+		}
+		j.m.Violation("request-without-callers-context", map[string]any{"untagged_requests": s.counts["requests_untagged"], "examples": tailEvents(ex, 5), "log": tailEvents(s.all, 40)})
+	}
 	// after a badNonce reply the next signed request (sequential phase only:
 	// no other operation can add older nonces back) uses a nonce issued at or
 	// after that reply
@@ -892,7 +903,7 @@ func TestC50(t *testing.T) {
 	m.Assume("virtual-time stream: testing/synctest fake clock; verdicts use only that clock")
 	ecKey(rand.New(rand.NewPCG(1, 2)))
 
-	total := m.N(1200, 60000)
+	total := m.N(1200, 40000)
 	m.Cases("sessions", total, func(i int64, r *rand.Rand) {
 		cfg := sessionCfg{NB: 2 + r.IntN(6), idPrefix: fmt.Sprintf("c%d", i)}
 		switch i % 4 {
